@@ -1,9 +1,10 @@
 (* C07 — every error carries a truthful location and include trace.
    Statements only; proofs in Proofs/C07Proofs.v.  PARTIAL: the arithmetic of
-   Bytes.LineAndColumn is a theorem; that every error of a build points into its file with
+   Bytes.LineAndColumn is a theorem; every error of the scanner points into the file (all inputs); that every error of a build points into its file with
    the right trace is REFUTED twice on the current tree (findings F11, F13) and otherwise
    checked by correspondence and by an independent recomputation on the implementation. *)
-From JS Require Import Base Bytes Scanner Core Entry C07Proofs.
+From JS Require Import Base Bytes Scanner ScanRun Core Entry C07Proofs.
+From JS Require ErrInFile ScannerProg.
 Open Scope Z_scope.
 
 Theorem C07_line_and_column :
@@ -13,6 +14,17 @@ Theorem C07_line_and_column :
     (1 + count_nl (newline_symbol content) (firstn (Z.to_nat i) content),
      1 + after_last_nl (newline_symbol content) (firstn (Z.to_nat i) content) 0).
 Proof. exact line_and_column_spec. Qed.
+
+(* "an index inside that file", for the scanning phase and EVERY input: an error of the scanner
+   (unexpected character, unexpected end, NUL byte) carries the position of the byte that was being
+   scanned, 0 <= index <= length (the end-of-file pseudo byte sits at index = length: finding F11
+   is about what line/column that index is given).  Errors relayed from the schema-length oracle
+   carry the oracle's offset and are outside this statement. *)
+Theorem C07_scanner_errors_point_into_the_file :
+  forall data tbl fuel,
+    let '(_, e, _) := lex_traj data tbl fuel (init_conf ScannerProg.initial_state) in
+    match e with EndErr err => ErrInFile.in_file data err | _ => True end.
+Proof. exact ErrInFile.scanner_errors_point_into_the_file. Qed.
 
 Theorem C07_refuted_end_of_file_errors :
   match err_loc (tree_case [(rn, FFile f11_doc)] rn [] [] 1000) with
@@ -27,5 +39,6 @@ Theorem C07_refuted_tracer_cache :
 Proof. exact tracer_cache_refuted. Qed.
 
 Print Assumptions C07_line_and_column.
+Print Assumptions C07_scanner_errors_point_into_the_file.
 Print Assumptions C07_refuted_end_of_file_errors.
 Print Assumptions C07_refuted_tracer_cache.
